@@ -143,7 +143,7 @@ PROPS = {
     },
     "C06": {
         "streams": ["addr", "resolve"],
-        "theorems": "C06_local_round_trip, C06_local_resolve_canonical (all strings / all pairs of local values); C06_registry_round_trip, C06_registry_package_round_trip (every well-formed registry package value and every valid sub-path without '?': parse (print v) = v; well-formedness is evaluated on every registry value the parsers return in a run); C06_final_registry_round_trip (with C06_version_round_trip, C06_decimal_round_trip), C06_remote_round_trip (every remote value whose host, path and sub-path URL escaping leaves alone, via C06_parse_remote_structured and a model of net/url); refutation witnesses for the five known mechanisms (KF-C06-1..5), which are exactly the shapes outside the theorems' hypotheses",
+        "theorems": "C06_local_round_trip, C06_local_resolve_canonical (all strings / all pairs of local values); C06_registry_round_trip, C06_registry_package_round_trip (every well-formed registry package value and every valid sub-path without '?': parse (print v) = v; well-formedness is evaluated on every registry value the parsers return in a run); C06_final_registry_round_trip (with C06_version_round_trip, C06_decimal_round_trip), C06_remote_round_trip (every remote value whose host, path and sub-path URL escaping leaves alone, via C06_parse_remote_structured and a model of net/url); C06_same_kind_local / _registry / _final_registry / _remote (the general parsers ParseSource and ParseFinalSource send a printed address back to its own kind: printed registry text never has local form; C06_registry_parser_refuses_remote_text: the registry parser refuses every structured remote text; for ParseFinalSource on remote text PARTIAL: without '@'; leading/trailing white space is refused by the general parsers only, hence a hypothesis); refutation witnesses for the five known mechanisms (KF-C06-1..5), which are exactly the shapes outside the theorems' hypotheses",
         "assumptions": _ADDR_ASSUME + ["derived values (ResolveRelative*, Versioned, SourceAddr, FinalSourceAddr) are printed, re-parsed and compared on the implementation by the addr stream's oracle"],
     },
     "C07": {
